@@ -17,6 +17,9 @@ import (
 	"golang.org/x/tools/go/ssa"
 )
 
+// Go strings are byte sequences: every symbolic input string ranges over code points 0..255.
+const byteStringRe = `(re.* (re.range "\u{0}" "\u{ff}"))`
+
 const rtPkg = "github.com/go-critic/go-critic/gsxrt"
 
 var intrinsics = map[string]externalFn{}
@@ -154,11 +157,11 @@ func init() {
 		if s, ok := args[1].(string); ok {
 			return regexp.MustCompile(pat).MatchString(s)
 		}
-		rl, err := regexToSMTSearch(pat)
+		t, err := matchTerm(pat, mustTerm(args[1]), fr.path())
 		if err != nil {
 			panic(engineError{"gsxrt.Matches: " + err.Error()})
 		}
-		return boolVal(InRe(mustTerm(args[1]), rl))
+		return boolVal(t)
 	})
 	reg(rtPkg+".Or", func(fr *frame, args []value) value {
 		r := TFalse
